@@ -120,6 +120,22 @@ func TestVerifC06Revoke(t *testing.T) {
 	out.Close("C01.Check", "")
 }
 
+// c01OwnershipOnly: when set, state B differs from state A only by ownership changes (third part of the C17 check)
+var c01OwnershipOnly bool
+
+// TestVerifC17Own: third part of the C17 check. Histories in which ownership changes and nothing else: a Gateway is
+// handed over to (or taken from) another controller's class, the configured class changes hands, a Route is retargeted.
+// The long-lived controller must end up where a fresh one does: in particular it stops configuring, and stops writing
+// to, what is no longer its own.
+func TestVerifC17Own(t *testing.T) {
+	out := vu.Open("C17")
+	out.ShardLen(8)
+	c01OwnershipOnly = true
+	defer func() { c01OwnershipOnly = false }()
+	c01Histories(out, vu.NewRng(out.Seed^0xC170), out.Count(50, 1500), false)
+	out.Close("C01.Check", "")
+}
+
 func c01Histories(out *vu.Out, rng *vu.Rng, n int, focusGrants bool) {
 	ctx := context.Background()
 	for i := 0; i < n; i++ {
@@ -147,6 +163,29 @@ func c01Histories(out *vu.Out, rng *vu.Rng, n int, focusGrants bool) {
 			c01Mutate(r, b) // ... some of them changed, removed or added
 		}
 		var flags []string
+		// a listener that selects Route namespaces by label but is itself invalid (its certificate does not exist): it
+		// still decides whether a Route is NotAllowedByListeners or attached to an invalid listener, so a label change
+		// of the Route's Namespace alone changes the Route's status
+		if !focusGrants && len(a.Gateways) > 0 && len(b.Gateways) > 0 && a.Gateways[0].Name == b.Gateways[0].Name && r.Chance(1, 3) {
+			dir := r.Bool()
+			valid := r.Chance(1, 3)
+			for k, c := range []*vsCluster{a, b} {
+				l := vsListener{Name: "l-sel", Port: 8444, Proto: "HTTPS", Cert: &vsCertRef{Name: "cert-missing"}, From: "Selector", Selector: [][2]string{{"sel", "y"}}}
+				if valid {
+					l.Proto, l.Cert, l.Port = "HTTP", nil, 8081
+				}
+				c.Gateways[0].Listeners = append(c.Gateways[0].Listeners, l)
+				ns := vsNamespace{Name: "team-sel"}
+				if (k == 0) == dir {
+					ns.Labels = [][2]string{{"sel", "y"}}
+				}
+				c.Namespaces = append(c.Namespaces, ns)
+				c.Routes = append(c.Routes, vsRoute{NS: "team-sel", Name: "r-sel", TS: 1,
+					Parents: []vsParentRef{{NS: vsPtr(c.Gateways[0].NS), Name: c.Gateways[0].Name, Section: vsPtr("l-sel")}},
+					Rules:   []vsRule{{Matches: []vsMatch{{Path: "/sel"}}, Backends: []vsBackend{{Name: "svc-a", Port: 80, Weight: 1}}}}})
+			}
+			flags = append(flags, "selector-listener-namespace-relabel")
+		}
 		// TLS passthrough: a TLSRoute whose backend lives in another namespace under a ReferenceGrant (C06 revocation)
 		extraA, extraB := c01Extras(r, a, &flags)
 		objsA := append(a.Objects(), extraA...)
@@ -249,6 +288,17 @@ func c01Histories(out *vu.Out, rng *vu.Rng, n int, focusGrants bool) {
 				}
 			}
 			ops = append(head, tail...)
+		}
+		// ownership histories: in half of them the last event of all is a Gateway or GatewayClass update (nothing that
+		// follows repairs a wrong relevance decision)
+		if c01OwnershipOnly && r.Bool() {
+			for k := len(ops) - 1; k >= 0; k-- {
+				if kd := c01Kind(ops[k].obj); (kd == "Gateway" || kd == "GatewayClass") && !ops[k].del {
+					o := ops[k]
+					ops = append(append(ops[:k:k], ops[k+1:]...), o)
+					break
+				}
+			}
 		}
 		cw := &c01World{}
 		cw.k8s = vpNewCluster()
@@ -392,6 +442,10 @@ func c01CrossNS(r *vu.Rng, c *vsCluster) {
 
 // c01Mutate changes a copy of the state: some objects go, some change, some appear.
 func c01Mutate(r *vu.Rng, c *vsCluster) {
+	if c01OwnershipOnly {
+		c01MutateOwnership(r, c, 2)
+		return
+	}
 	if len(c.Routes) > 1 && r.Chance(1, 2) {
 		k := r.Intn(len(c.Routes))
 		c.Routes = append(c.Routes[:k:k], c.Routes[k+1:]...)
@@ -444,6 +498,7 @@ func c01Mutate(r *vu.Rng, c *vsCluster) {
 			l.Host = vsPtr(vsPick(r, vsHostPool))
 		}
 	}
+	c01MutateOwnership(r, c, 1)
 	if r.Chance(1, 3) && len(c.ConfigMaps) > 0 {
 		c.ConfigMaps[0].OK = !c.ConfigMaps[0].OK
 	}
@@ -531,4 +586,36 @@ func vpSpecOf(o client.Object) any {
 	cp := o.DeepCopyObject().(client.Object)
 	cp.SetManagedFields(nil)
 	return cp
+}
+
+// c01MutateOwnership: a Gateway handed over to (or taken from) another controller's class, the configured class itself
+// changing hands, a Route retargeted to another Gateway or listener. boost multiplies the probabilities.
+func c01MutateOwnership(r *vu.Rng, c *vsCluster, boost int) {
+	for gi := range c.Gateways {
+		if r.Chance(boost, 5) {
+			if c.Gateways[gi].Class == vpClassName {
+				c.Gateways[gi].Class = "foreign"
+			} else {
+				c.Gateways[gi].Class = vpClassName
+			}
+		}
+	}
+	if r.Chance(boost, 10) && len(c.Classes) > 0 && c.Classes[0].Name == vpClassName {
+		if c.Classes[0].Controller == vpCtlrName {
+			c.Classes[0].Controller = "example.com/other"
+		} else {
+			c.Classes[0].Controller = vpCtlrName
+		}
+	}
+	for i := range c.Routes {
+		if r.Chance(boost, 6) && len(c.Routes[i].Parents) > 0 && len(c.Gateways) > 0 {
+			p := &c.Routes[i].Parents[0]
+			g := c.Gateways[r.Intn(len(c.Gateways))]
+			p.Name, p.NS = g.Name, vsPtr(g.NS)
+			p.Section = nil
+			if len(g.Listeners) > 0 && r.Bool() {
+				p.Section = vsPtr(g.Listeners[r.Intn(len(g.Listeners))].Name)
+			}
+		}
+	}
 }
